@@ -2,6 +2,7 @@ package main
 
 import (
 	"crypto/ecdsa"
+	"crypto/ed25519"
 	crand "crypto/rand"
 	"crypto/sha256"
 	"crypto/sha512"
@@ -88,6 +89,78 @@ func genCraftedSubsets(r *Rng, tier string) []Case {
 				append(headBytes(0x80, 8, 1<<63+1), vv...),
 			}
 			date := baseDate + int64(r.Intn(1000))
+			inSx0 := func(x *bundle.Exchange) Sx {
+				b := &bundle.Bundle{Version: bver.VersionB2, Exchanges: []*bundle.Exchange{x}}
+				return bundleInSx(b).L[4].L[0]
+			}
+			emitSigned := func(signed []byte, ch certurl.CertChain, signer keyMat, xs ...*bundle.Exchange) {
+				sigs := &bundle.Signatures{Authorities: ch, VouchedSubsets: []*bundle.VouchedSubset{{Authority: 0, Sig: signRaw(signer, sigMessage(signed, ver)), Signed: signed}}}
+				ex := []Sx{}
+				for _, x := range xs {
+					ex = append(ex, inSx0(x))
+				}
+				cs = append(cs, Case{"bsig_verify", []Sx{sigsSx(sigs), Zi(date + 10), Zi(0), Sym(string(ver)), L(ex...), sigX509Tab(), sigTabFor(sigs, ver)}})
+			}
+			// the signed map itself: cut anywhere, a field missing / repeated / extra / of the wrong type
+			// (every variant is signed afresh, so only the decoder can refuse it)
+			type fld struct{ k, v []byte }
+			hashes := append(canonHead(0xa0, 1), append(cborText(u), cborArr(vv, hs, in)...)...)
+			std := []fld{{cborText("date"), cborUint(uint64(date))}, {cborText("expires"), cborUint(uint64(date + 3600))}, {cborText("auth-sha256"), cborBytes(authSha)},
+				{cborText("validity-url"), cborText("https://" + host + "/validity")}, {cborText("subset-hashes"), hashes}}
+			mk := func(fs []fld) []byte {
+				out := canonHead(0xa0, uint64(len(fs)))
+				for _, f := range fs {
+					out = append(append(out, f.k...), f.v...)
+				}
+				return out
+			}
+			full := mk(std)
+			step := 1
+			if tier == "quick" {
+				step = 2 + rep
+			}
+			for cut := 0; cut < len(full); cut += step {
+				emitSigned(full[:cut], chain, leaf, e)
+			}
+			for i := range std {
+				emitSigned(mk(append(append([]fld{}, std[:i]...), std[i+1:]...)), chain, leaf, e)                 // one field missing
+				emitSigned(mk(append(append([]fld{}, std...), std[i])), chain, leaf, e)                            // one field twice
+				emitSigned(mk(append(append(append([]fld{}, std[:i]...), fld{cborText("bogus"), cborUint(1)}), std[i:]...)), chain, leaf, e) // an unknown field before it
+				for _, wrong := range [][]byte{cborUint(7), cborText("x"), cborBytes([]byte("x")), {0x80}, {0xa0}, {0xf6}, cborText("https://exa mple.com/%zz"), cborText(":")} {
+					fs := append([]fld{}, std...)
+					fs[i] = fld{std[i].k, wrong}
+					emitSigned(mk(fs), chain, leaf, e)
+				}
+				fs := append([]fld{}, std...)
+				fs[i] = fld{cborBytes(std[i].k[1:]), std[i].v} // the key as a byte string
+				emitSigned(mk(fs), chain, leaf, e)
+			}
+			emitSigned(append(append([]byte{}, full...), 0x00), chain, leaf, e) // a byte after the map
+			// integrity identifiers other than this version's; an exchange without the Digest header
+			for _, id := range []string{"mi-draft2", "digest/mi-sha256-02", "", "DIGEST/MI-SHA256-03", integ + " "} {
+				fs := append([]fld{}, std...)
+				fs[4] = fld{std[4].k, append(canonHead(0xa0, 1), append(cborText(u), cborArr(vv, hs, cborText(id))...)...)}
+				emitSigned(mk(fs), chain, leaf, e)
+			}
+			{
+				nd := &bundle.Exchange{Request: bundle.Request{URL: mustURL(u), Header: http.Header{}}, Response: bundle.Response{Status: 200, Header: h.Clone(), Body: e.Response.Body}}
+				nd.Response.Header.Del("Digest")
+				if ndh, err := nd.Response.HeaderSha256(); err == nil {
+					fs := append([]fld{}, std...)
+					fs[4] = fld{std[4].k, append(canonHead(0xa0, 1), append(cborText(u), cborArr(vv, cborBytes(ndh), in)...)...)}
+					emitSigned(mk(fs), chain, leaf, nd)
+				}
+			}
+			// an authority whose key type has no verifier (Ed25519)
+			{
+				keysOnce()
+				edChain := certurl.CertChain{{Cert: sxgEdKey.cert, OCSPResponse: []byte("ocsp")}}
+				fs := append([]fld{}, std...)
+				fs[2] = fld{std[2].k, cborBytes(edChain[0].CertSha256())}
+				signed := mk(fs)
+				sigs := &bundle.Signatures{Authorities: edChain, VouchedSubsets: []*bundle.VouchedSubset{{Authority: 0, Sig: ed25519.Sign(sxgEdKey.priv.(ed25519.PrivateKey), sigMessage(signed, ver)), Signed: signed}}}
+				cs = append(cs, Case{"bsig_verify", []Sx{sigsSx(sigs), Zi(date + 10), Zi(0), Sym(string(ver)), L(inSx0(e)), sigX509Tab(), sigTabFor(sigs, ver)}})
+			}
 			for _, val := range values {
 				for _, twice := range []bool{false, true} {
 					entries := append(cborText(u), val...)
